@@ -14,8 +14,10 @@
    before a qualifier are ordered differently.  What is proved is the equality on the
    complement of the finding's class.  The class is "a side is outside
           N(.N){0,3} [ (.|-) W D ]
-   where every N has 1..18 digits and either W is one of alpha|beta|milestone|rc|cr|snapshot in
-   any letter case with D of 0..18 glued digits, or W is one of a|b|m with D of 1..18 digits;
+   where every N is a non-empty run of digits of ANY length (the library parses numbers with
+   math/big, as ComparableVersion's BigIntegerItem does) and either W is one of
+   alpha|beta|milestone|rc|cr|snapshot in any letter case with D a possibly empty run of glued
+   digits, or W is one of a|b|m with D a non-empty run of glued digits (any length in both cases);
    and, when the group is present, the value of the last N is not 0", recognised by
    [in_scope] (C12_scope_def spells it out).  On it every text is accepted and Compare IS
    ComparableVersion (C12_maven_cmp_is_spec).  Outside it the library deviates, one witness per
@@ -94,13 +96,14 @@ Print Assumptions C12_reference_not_transitive.
 (* ====================================================================== *)
 
 (* the class, layer by layer: the leading N(.N){0,3} is scanned off ([scan_nums 3]: a "." continues
-   it only when a digit follows, at most three times), every N has 1..18 digits, and what remains
-   is empty or one group *)
+   it only when a digit follows, at most three times), every N is a non-empty digit run (no bound
+   on its length, nor on the length of the digits glued to the qualifier), and what remains is empty
+   or one group *)
 Theorem C12_scope_def :
   (forall s : bytes,
      Maven.SpecFacts.in_scope s =
      (let (ds, rest) := Maven.SpecFacts.scan_nums 3 s in
-      forallb (fun d => nonempty_digits d && (length d <=? 18)%nat) ds &&
+      forallb (fun d => nonempty_digits d) ds &&
       Maven.SpecFacts.group_ok (last ds []) rest)) /\
   (forall (k : nat) (s : bytes),
      Maven.SpecFacts.scan_nums k s =
@@ -120,7 +123,7 @@ Theorem C12_scope_def :
      | sep :: r =>
          let w := take_while is_letter r in
          let dg := drop_while is_letter r in
-         (ceqb sep "."%char || ceqb sep "-"%char) && forallb is_digit dg && (length dg <=? 18)%nat
+         (ceqb sep "."%char || ceqb sep "-"%char) && forallb is_digit dg
          && (mem (to_lower w) [ $"alpha"; $"beta"; $"milestone"; $"rc"; $"cr"; $"snapshot" ]
              || (mem (to_lower w) [ $"a"; $"b"; $"m" ] && match dg with [] => false | _ => true end))
          && negb (digits_val last_num =? 0)%N
@@ -135,13 +138,20 @@ Print Assumptions C12_scope_def.
 Theorem C12_scope_examples :
   forallb Maven.SpecFacts.in_scope
     [ $"1"; $"1.0.0"; $"007.2.3.4"; $"1-rc"; $"1.RC2"; $"2.5-SNAPSHOT"; $"1.2-cr01";
-      $"3-a1"; $"3.1.B2"; $"1.0.1-m3"; $"1-alpha0"; $"123456789012345678.1-beta9" ] = true /\
+      $"3-a1"; $"3.1.B2"; $"1.0.1-m3"; $"1-alpha0"; $"123456789012345678.1-beta9";
+      $"1234567890123456789"; $"1.18446744073709551616"; $"9223372036854775808.0.1";
+      $"1.99999999999999999999-rc100000000000000000000"; $"1-a00000000000000000001";
+      $"123456789012345678901234567890.1-beta99999999999999999999" ] = true /\
   forallb (fun s => negb (Maven.SpecFacts.in_scope s))
     [ $""; $"1."; $"1.2.3.4.5"; $"1.0-rc1"; $"1-a"; $"1-sp"; $"1-rc-1"; $"1-rc.1"; $"1-jre"; $"1-1";
-      $"1234567890123456789"; $"1-rc1x"; $"v1"; $"1 "; $"0-rc" ] = true /\
+      $"1-rc1x"; $"v1"; $"1 "; $"0-rc"; $"00000000000000000000-rc"; $"1.00000000000000000000.b2";
+      $"18446744073709551616-sp"; $"1-rc18446744073709551616x" ] = true /\
   forallb MavenCV.spec_valid
     [ $"1"; $"1.0.0"; $"007.2.3.4"; $"1-rc"; $"1.RC2"; $"2.5-SNAPSHOT"; $"1.2-cr01";
-      $"3-a1"; $"3.1.B2"; $"1.0.1-m3"; $"1-alpha0"; $"123456789012345678.1-beta9" ] = true.
+      $"3-a1"; $"3.1.B2"; $"1.0.1-m3"; $"1-alpha0"; $"123456789012345678.1-beta9";
+      $"1234567890123456789"; $"1.18446744073709551616"; $"9223372036854775808.0.1";
+      $"1.99999999999999999999-rc100000000000000000000"; $"1-a00000000000000000001";
+      $"123456789012345678901234567890.1-beta99999999999999999999" ] = true.
 Proof.
   destruct Maven.SpecFacts.in_scope_examples as [H1 H2].
   split; [exact H1|]. split; [exact H2 | exact Maven.SpecFacts.in_scope_examples_conventional].
@@ -166,7 +176,7 @@ Print Assumptions C12_maven_cmp_is_spec.
 (* C. clauses that hold for the library beyond the class                   *)
 (* ====================================================================== *)
 
-(* [digit_token d]: a non-empty digit run with a value below 2^63.  Dotted numerals of equal
+(* [digit_token d]: a non-empty digit run (of any length).  Dotted numerals of equal
    length compare as integer tuples *)
 Theorem C12_maven_numeric : forall (ds1 ds2 : list bytes) (c1 c2 : Maven.Version.core),
   ds1 <> [] -> ds2 <> [] ->
